@@ -465,7 +465,12 @@ func c14Last[T comparable](a, b T) {
 
 func VerifC14Scalars() {
 	x, y := vsymInt("x"), vsymInt("y")
-	switch vchoose("type", 14) {
+	switch vchoose("type", 15) {
+	case 14: // chunks of an interface type that are all nil
+		v, err := internal.ConcatItems([]any{nil, nil})
+		vassert(err != nil || v == nil, "nil chunks of an interface type concatenate to nil or to an error, never a panic")
+		w, err := internal.ConcatItems([]any{nil, "s"})
+		vassert(err != nil || w == "s", "a nil chunk next to a value gives the value or an error, never a panic")
 	case 0:
 		c14Last[int8](int8(x), int8(y))
 	case 1:
